@@ -23,6 +23,9 @@ import (
 
 const repoRoot = "/repo"
 
+var replayHookOverlay map[string]string
+var replayHooks []hookInfo
+
 func overlayFor(cfg *HarnessConfig, verifRoot string, withReplayTest bool, harnessFuncs []string) (map[string]string, string) {
 	ov := map[string]string{}
 	ov[filepath.Join(repoRoot, "pkg/zzvp/vp.go")] = filepath.Join(verifRoot, "harness/common/vp.go")
@@ -37,8 +40,29 @@ func overlayFor(cfg *HarnessConfig, verifRoot string, withReplayTest bool, harne
 	if withReplayTest {
 		pkgName := cfg.pkgName
 		var b strings.Builder
-		fmt.Fprintf(&b, "package %s\n\nimport (\n\t\"testing\"\n\tvp \"istio.io/istio/pkg/zzvp\"\n)\n\n", pkgName)
-		b.WriteString("func TestVerifReplay(t *testing.T) {\n\tvp.RunReplay(t, map[string]func(){\n")
+		fmt.Fprintf(&b, "package %s\n\nimport (\n\t\"testing\"\n\tvp \"istio.io/istio/pkg/zzvp\"\n", pkgName)
+		imports := map[string]string{}
+		for _, h := range replayHooks {
+			if h.pkgPath != cfg.Package {
+				if _, ok := imports[h.pkgPath]; !ok {
+					imports[h.pkgPath] = fmt.Sprintf("verifhk%d", len(imports))
+					fmt.Fprintf(&b, "\t%s %q\n", imports[h.pkgPath], h.pkgPath)
+				}
+			}
+		}
+		b.WriteString(")\n\n")
+		b.WriteString("func TestVerifReplay(t *testing.T) {\n")
+		for _, h := range replayHooks {
+			if h.pkgPath == cfg.Package {
+				fmt.Fprintf(&b, "\t%s = %s\n", h.hookVar, h.harnessF)
+			} else {
+				fmt.Fprintf(&b, "\t%s.%s = %s\n", imports[h.pkgPath], h.hookVar, h.harnessF)
+			}
+		}
+		for virt, real := range replayHookOverlay {
+			ov[virt] = real
+		}
+		b.WriteString("\tvp.RunReplay(t, map[string]func(){\n")
 		for _, h := range harnessFuncs {
 			fmt.Fprintf(&b, "\t\t%q: %s,\n", h, h)
 		}
@@ -90,9 +114,6 @@ func main() {
 	}
 	if *solverOv != "" {
 		cfg.Solver = *solverOv
-	}
-	if *replayOne != "" {
-		os.Exit(replayStored(cfg, *verifRoot, *replayOne))
 	}
 
 	ov, _ := overlayFor(cfg, *verifRoot, false, nil)
@@ -149,6 +170,22 @@ func main() {
 		fmt.Fprintln(os.Stderr, "ERROR:", err)
 		os.Exit(2)
 	}
+	if ho, hk, err := buildHookOverlay(prog, cfg); err != nil {
+		fmt.Fprintln(os.Stderr, "ERROR: replay hooks:", err)
+		os.Exit(2)
+	} else {
+		replayHookOverlay, replayHooks = ho, hk
+	}
+	if *replayOne != "" {
+		rc := replayStored(cfg, *verifRoot, *replayOne)
+		for _, f := range replayHookOverlay {
+			os.Remove(f)
+		}
+		if replayBin != "" {
+			os.Remove(replayBin)
+		}
+		os.Exit(rc)
+	}
 
 	eng := &engine{
 		prog: prog, cfg: cfg,
@@ -184,6 +221,15 @@ func main() {
 		}
 		if replayBin != "" {
 			os.Remove(replayBin)
+		}
+		if replayBinJitter != "" {
+			os.Remove(replayBinJitter)
+		}
+		for _, f := range jitterFiles {
+			os.Remove(f)
+		}
+		for _, f := range replayHookOverlay {
+			os.Remove(f)
 		}
 	}
 
@@ -366,13 +412,29 @@ func goEnv() []string {
 // replayBinary builds (once) the package's test binary with the harness overlay.
 var replayBin string
 var replayBuildErr string
+var replayBinJitter string
+var jitterFiles []string
 
-func buildReplayBinary(cfg *HarnessConfig, verifRoot string, harnessFuncs []string) {
-	if replayBin != "" || replayBuildErr != "" {
+func buildReplayBinary(cfg *HarnessConfig, verifRoot string, harnessFuncs []string, jitter bool) {
+	if !jitter && (replayBin != "" || replayBuildErr != "") {
+		return
+	}
+	if jitter && (replayBinJitter != "" || replayBuildErr != "") {
 		return
 	}
 	ov, testFile := overlayFor(cfg, verifRoot, true, harnessFuncs)
 	defer os.Remove(testFile)
+	if jitter {
+		jo, err := buildJitterOverlay(cfg, ov)
+		if err != nil {
+			replayBuildErr = "jitter overlay: " + err.Error()
+			return
+		}
+		for k, v := range jo {
+			ov[k] = v
+			jitterFiles = append(jitterFiles, v)
+		}
+	}
 	type ovJSON struct {
 		Replace map[string]string
 	}
@@ -395,16 +457,28 @@ func buildReplayBinary(cfg *HarnessConfig, verifRoot string, harnessFuncs []stri
 		os.Remove(binf.Name())
 		return
 	}
-	replayBin = binf.Name()
+	if jitter {
+		replayBinJitter = binf.Name()
+	} else {
+		replayBin = binf.Name()
+	}
 }
 
 // replayNative runs the harness natively on the stored inputs inside /repo's real package.
 func replayNative(cfg *HarnessConfig, verifRoot, replayPath string, harnessFuncs []string) (bool, string) {
-	buildReplayBinary(cfg, verifRoot, harnessFuncs)
+	var want0 Violation
+	if b0, err := os.ReadFile(replayPath); err == nil {
+		json.Unmarshal(b0, &want0)
+	}
+	buildReplayBinary(cfg, verifRoot, harnessFuncs, want0.Threads)
 	if replayBuildErr != "" {
 		return false, replayBuildErr
 	}
-	cmd := exec.Command(replayBin, "-test.run", "^TestVerifReplay$", "-test.timeout", "300s")
+	bin := replayBin
+	if want0.Threads {
+		bin = replayBinJitter
+	}
+	cmd := exec.Command(bin, "-test.run", "^TestVerifReplay$", "-test.timeout", "300s")
 	cmd.Dir = filepath.Join(repoRoot, cfg.Dir)
 	cmd.Env = append(goEnv(), "VERIF_REPLAY="+replayPath)
 	out, _ := cmd.CombinedOutput()
